@@ -90,6 +90,11 @@ func cmdFn(args []string) {
 			if *dump != "" {
 				os.WriteFile(*dump, []byte(vc.render(vc.obligs, "z3", *timeout)), 0o644)
 			}
+			for w := range vc.watch {
+				if !vc.watchHit[w] {
+					fmt.Printf("    WARNING: watch name %q matched no call, send or receive in this function or its callees\n", w)
+				}
+			}
 			if len(vc.autoKept) > 0 {
 				fmt.Printf("    auto invariants: %s\n", strings.Join(vc.autoKept, "; "))
 			}
